@@ -63,7 +63,8 @@ def generate(rng, tier):
         cells, path = c11.broadcast(rng)
         if any(p[0] == 'X' for p in path):
             continue                       # ** also matches the root and inner containers: C11 / C12's model decides those
-        out.append({'kind': 'broadcast', 'cells': cells, 'path': path, 'op': rng.choice(['assign', 'delete'])})
+        op = rng.choice(['assign', 'delete', 'delete'])
+        out.append({'kind': 'broadcast', 'cells': cells, 'path': path, 'op': op, 'ignore_missing': op == 'delete' and rng.random() < 0.5})
     return out
 
 
@@ -172,15 +173,19 @@ def run_broadcast(case):
                 leaf[key] = 'W'
             else:
                 del leaf[key]
+        except (KeyError, IndexError):
+            if not case.get('ignore_missing'):
+                ok = False      # some match cannot take the operation: the whole call must fail (checked under C11 / C12)
+            # with ignore_missing=True a match that lacks the element is passed over and every other match is still acted on
         except Exception:
-            ok = False          # some match cannot take the operation: the whole call must fail (checked under C11 / C12)
+            ok = False
     if ok:
         try:
             path = c11.build_path(case['path'])
             if case['op'] == 'assign':
                 glom.assign(target, path, 'W')
             else:
-                glom.delete(target, path)
+                glom.delete(target, path, ignore_missing=bool(case.get('ignore_missing')))
             if target != expect:
                 problems.append('%s through %d wildcards: got %r, acting on every match gives %r' % (case['op'], depth, target, expect))
         except Exception as e:
